@@ -1,7 +1,7 @@
 """C07 cache transparency - produce / restart / consume over configurations, with oracles on
 the returned trees and on the recorded I/O history (DESIGN 3.2)."""
 from .. import world
-from ..oracle import Violation, exc_text, tree_diff
+from ..oracle import Violation, exc_text, scribble, tree_diff
 from ..sim import SIM
 from . import common, select
 
@@ -67,7 +67,7 @@ def generate(rng, tier, index):
         im = wp["images"][k]
         sels.append([k, select.gen_selection(rng, im["lines"], im["pixels"])])
     return {"world": wp, "producer": producer, "location": location, "w": w_rpc, "r": r_rpc,
-            "selections": sels,
+            "selections": sels, "scribble": rng.random() < 0.5,
             "relocate_to": {"backend": rng.choice(["local", "file", "simfs", "simfs_opt",
                                                    "memory"]),
                             "dirs": rng.choice([["moved"], ["up", "loaded"], []])},
@@ -103,7 +103,9 @@ def execute(plan):
 
     try:
         try:
-            ref = w.open(use_cache=False, records_per_chunk=r)
+            # loaded and deep-copied: the reference owns its values whatever later calls share
+            ref = w.open(use_cache=False, records_per_chunk=r).load().copy(deep=True)
+            ref_lazy = w.open(use_cache=False, records_per_chunk=r)
         except Exception as e:  # noqa: BLE001
             bump("reference-raised:" + type(e).__name__)
             return common.outcome(SIM, violations, keys, stats)
@@ -142,11 +144,11 @@ def execute(plan):
                     else:
                         rc = w.cli(img, rpc=wr)
                     if rc != 0:
-                        violations.append(Violation(ID, "producer-failed", site, {
-                            "exit_status": rc, "image": img}))
-                if sorted(w.adjacent()) != sorted(i + ".index" for i in prod.images):
-                    violations.append(Violation(ID, "cache-not-created", site, {
-                        "adjacent": sorted(w.adjacent()), "images": prod.images}))
+                        # the premise of the property ("a cache was produced by the tool") does
+                        # not hold: counted; the run goes on with whatever caches exist
+                        bump("cli-exit-status-nonzero")
+                if not w.adjacent():
+                    bump("cli-produced-no-adjacent-index")
                 if location == "both":
                     w.open(create_cache=True, use_cache=False, records_per_chunk=wr)
                 if producer == "cli-relocated":
@@ -155,7 +157,8 @@ def execute(plan):
                     w.relocate(plan["relocate_to"]["backend"], plan["relocate_to"]["dirs"])
                     kind = backend_kind(w.backend)
                     site = f"{producer}:{location}:{kind}"
-                    ref = w.open(use_cache=False, records_per_chunk=r)
+                    ref = w.open(use_cache=False, records_per_chunk=r).load().copy(deep=True)
+                    ref_lazy = w.open(use_cache=False, records_per_chunk=r)
         except Exception as e:  # noqa: BLE001
             violations.append(Violation(ID, "producer-raised", f"{producer}:{type(e).__name__}", {
                 "error": exc_text(e), "rpc": wr, "backend": w.backend}))
@@ -190,7 +193,9 @@ def execute(plan):
             for k, sel in ([] if diffs else plan.get("selections", [])):
                 name = prod.images[k]
                 try:
-                    want = select.apply(ref["imagery"][prod.groups[name]]["data"], sel).load()
+                    # the same lazy machinery on the uncached tree: what xarray's adapter rejects
+                    # for any backend is rejected here as well and skipped
+                    want = select.apply(ref_lazy["imagery"][prod.groups[name]]["data"], sel).load()
                 except Exception:  # noqa: BLE001 - not a selection the uncached tree supports
                     bump("selection-rejected-by-reference")
                     continue
@@ -229,6 +234,19 @@ def execute(plan):
                 if have_adj and not have_user and any(
                         x for x in _reads_of(events, lambda b: b.endswith(".index"))):
                     SIM.probe("adjacent_cache_used")
+        # ------------------------------------------------------------ results must not share state
+        if t is not None and plan.get("scribble") and not violations:
+            # the caller changes the tree it was given in place (metadata values, attrs); the next
+            # cached open must still equal the uncached reference
+            bump("scribbled-objects:%d" % min(scribble(t), 1))
+            try:
+                t3 = w.open(spelling, **opts)
+                diffs = tree_diff(ref, t3)
+            except Exception as e:  # noqa: BLE001
+                diffs = ["raised " + exc_text(e)]
+            if diffs:
+                violations.append(Violation(ID, "cached-open-shares-state-with-earlier-result", site, {
+                    "diffs": diffs, "r": r, "w": wr, "backend": w.backend}))
         # ------------------------------------------------------------ consume without cache
         mark = SIM.mark()
         try:
